@@ -153,6 +153,7 @@ func (ex *Exec) ResetRun() {
 	ex.digitMemo = nil
 	ex.KeepHarnessOutcomes = true
 	ex.NoOutcomeMerge = false
+	ex.RecordGlobals = false
 	factsCache = map[int]*facts{}
 	globalConj = nil
 	setTermMemo = map[string]*term.Term{}
